@@ -254,6 +254,7 @@ CURRENT_TIER = "quick"
 def impl_env(extra=None):
     env = {k: v for k, v in os.environ.items() if not k.startswith("PYTHON")}
     env.setdefault("VERIF_RUN_BUDGET", RUN_BUDGET.get(CURRENT_TIER, "600"))
+    env.setdefault("VERIF_CASE_TIMEOUT", "45" if CURRENT_TIER == "quick" else "150")
     env.update({"PYTHONPATH": f"{REPO}:{VERIF / 'harness'}", "PYTHONHASHSEED": "0",
                 "PYTHONWARNINGS": "ignore", "PYTHONDONTWRITEBYTECODE": "1",
                 "NUMERARY_BEARTYPE": "0", "DYCE_REPO": str(REPO)})
